@@ -45,6 +45,7 @@ def generate(st):
         'named': sw.random() < 0.25,
         'daily_obs': sw.random() < 0.8,
         'index_name': sw.choice([None, None, None, 'date', 'obs', 'mixed']),
+        'unordered': sw.random() < 0.3,        # a version need not list its observation dates in ascending order
         'stamp_offset': sw.choice([0, 0, 0, 0, 3600, 86400, 300 * 86400]),     # publishers may stamp ahead of the clock
     }
     if cfg['stamp_offset']:
@@ -65,6 +66,8 @@ def generate(st):
                 vals.append([i, int(g.choice(cfg['values']))])
             else:
                 vals.append([i, enc(NAN) if g.random() < cfg['p_nan'] else enc(g.choice(cfg['values']))])
+        if cfg.get('unordered') and g.random() < 0.6:
+            g.shuffle(vals)
         return vals
 
     def read_op():
@@ -100,7 +103,7 @@ def generate(st):
                 vs = [version() for _ in range(g.choice([2, 2, 3]))]
                 if g.random() < 0.5 and len(vs) == 2 and ops and stamps:
                     pass
-                ops.append({'op': 'publish_many', 'versions': vs})
+                ops.append({'op': 'publish_many', 'versions': vs, 'plain': bool(g.random() < 0.5 and not cfg['stamp_offset'])})
                 for _ in vs:
                     stamps.append(now + datetime.timedelta(seconds=cfg['stamp_offset']))
                     n_pub += 1
@@ -115,6 +118,14 @@ def generate(st):
                 d = g.choice([t for t in cfg['ticks'] if t > 0] or [1])
                 ops.append({'op': 'tick', 'd': d})
                 now = now + datetime.timedelta(seconds=d)
+        elif r < 0.69 and any(o_.get('plain') for o_ in ops):
+            # the caller publishes the SAME list object of plain series once more, at the current time
+            ks = [j for j, o_ in enumerate(ops) if o_.get('plain')]
+            src = g.choice(ks)
+            ops.append({'op': 'republish_list', 'of': src})
+            for _ in ops[src]['versions']:
+                stamps.append(now)
+                n_pub += 1
         elif r < 0.75 and cfg['faulty'] and n_pub:
             ops.append({'op': 'redeliver', 'k': f.randrange(n_pub)})
             if g.random() < 0.5:
@@ -195,6 +206,7 @@ def execute(trace, ctx=None):
     model = Model()
     store = None
     messages = []          # every published Bi, for redelivery
+    caller_lists = {}      # op index -> (the caller's list object of plain series, its versions)
     live_reads = []        # (T, op index, result dict) for the no-look-ahead invariant
     pub_stamps_after = []  # (op index, stamp) of every publish/redelivery
     state = {'step': 0, 'reads': 0}
@@ -365,8 +377,15 @@ def execute(trace, ctx=None):
                         versions.append(([[i, v] for i, v in vs if i < n], vals))
                 if not versions:
                     continue
-                bis = [lib(lambda raw=raw: Bi(series(raw), stamp), 'Bi(series, stamp)') for raw, _ in versions]
-                store = lib(lambda: bi_merge(store, bis), 'bi_merge(store, [versions])')
+                if op.get('plain') and not cfg.get('stamp_offset'):
+                    plain_list = [series(raw) for raw, _ in versions]       # the caller's own list of un-stamped series
+                    caller_lists[k] = (plain_list, versions)
+                    store = lib(lambda: bi_merge(store, plain_list, asof=stamp), 'bi_merge(store, [plain series], asof=stamp)')
+                    bis = [lib(lambda raw=raw: Bi(series(raw), stamp), 'Bi(series, stamp)') for raw, _ in versions]
+                    res.probe('caller-owned-list-of-plain-series')
+                else:
+                    bis = [lib(lambda raw=raw: Bi(series(raw), stamp), 'Bi(series, stamp)') for raw, _ in versions]
+                    store = lib(lambda: bi_merge(store, bis), 'bi_merge(store, [versions])')
                 res.probe('several-versions-merged-in-one-call')
                 for (raw, vals), b in zip(versions, bis):
                     for i, v in vals:
@@ -376,6 +395,20 @@ def execute(trace, ctx=None):
                                 res.probe('same-stamp-override')
                     model.publish(stamp, vals)
                     messages.append((b, stamp, vals))
+                    after_publication(stamp)
+                _check_store(store, model, k)
+            elif kind == 'republish_list':
+                if op['of'] not in caller_lists:
+                    continue
+                plain_list, versions = caller_lists[op['of']]
+                stamp = SimClock.now
+                if model.stamps() and stamp < model.stamps()[-1]:
+                    continue
+                store = lib(lambda: bi_merge(store, plain_list, asof=stamp), 'bi_merge(store, same list again, asof=later stamp)')
+                res.probe('same-list-object-published-again')
+                for raw, vals in versions:
+                    model.publish(stamp, vals)
+                    messages.append((lib(lambda raw=raw: Bi(series(raw), stamp), 'Bi'), stamp, vals))
                     after_publication(stamp)
                 _check_store(store, model, k)
             elif kind == 'redeliver':
@@ -549,7 +582,7 @@ def signature(trace, violation):
 PROBES = ['same-stamp-publication', 'same-stamp-override', 'nan-does-not-override', 'revert-to-earlier-value',
           'date-first-published-later', 'store>=17-rows', 'implicit-now-stamp', 'read-strictly-between-stamps',
           'read-before-first-stamp', 'redelivery-of-version-in-store', 'redelivery-of-overridden-version',
-          'bump-stamp-capped-at-now', 'named-series', 'several-versions-merged-in-one-call', 'stamp-ahead-of-clock', 'named-index']
+          'bump-stamp-capped-at-now', 'named-series', 'several-versions-merged-in-one-call', 'stamp-ahead-of-clock', 'named-index', 'caller-owned-list-of-plain-series', 'same-list-object-published-again']
 TIERS = {'quick': {'runs': 4000, 'wallcap': 50}, 'thorough': {'runs': 150000, 'wallcap': 800}}
 COMPONENTS = {
     'real': ['pyg_base._bitemporal Bi / bi_merge / bi_read', 'pyg_base._dates.dt (stamp parsing, "now")', 'pandas concat/sort/groupby'],
